@@ -91,7 +91,7 @@ def decide(site):
             return c
     return exact.get(site)
 groups = [
- (R+'process_ghost_chain#', U("all seven vectors of a GhostChainSync are built with the same count by GhostChainSync::deserialize (and by generate_ghost_chain); i ranges over prehashes.len()")),
+ (R+'process_ghost_chain#', U("all seven vectors of a GhostChainSync are built with the same count by GhostChainSync::deserialize (and by generate_ghost_chain); i ranges over prehashes.len(); (after the proposed lite-node fix also pair[0] / pair[1] of block_ids.windows(2), which always has two elements)")),
  ('consensus::peers::peer_service::PeerService_as_TryFrom::try_from#', U("indices 0..2 after the values.len() != 3 check; the unwraps after the is_err() checks")),
  ('consensus::peers::peer_service::PeerService::deserialize_services#', U("each unwrap follows the corresponding is_err() early return (the first one sits in the is_err branch and takes the error)")),
  ('msg::message::Message::deserialize#', U("slices guarded in the same function: empty-buffer check, len != 40 (tag 6), len != 72 (tag 11), len % 33 (tag 15); the nested decoders are separate sites (C10)")),
